@@ -37,7 +37,8 @@ IndexKinds  == {"EMG", "EMG0", "Data3D", "Force", "Events"} \* kinds with index 
 \* of a 3D block); 0 for the other kinds
 \* szok: the size the block declares equals the size of its encoding (observed by the
 \* harness; TRUE in the model)
-NoInst == [ex |-> FALSE, items |-> <<>>, chans |-> <<>>, aux |-> 0, szok |-> TRUE]
+\* lenok: every item has the frame count of the block (observed; TRUE in the model)
+NoInst == [ex |-> FALSE, items |-> <<>>, chans |-> <<>>, aux |-> 0, szok |-> TRUE, lenok |-> TRUE]
 
 Ids(inst)    == {inst.items[k].id : k \in 1..Len(inst.items)}
 Range(s)     == {s[k] : k \in 1..Len(s)}
@@ -65,6 +66,8 @@ StateClauses(kind, a, b) ==
      \* list, which pair iteration would hide)
      If(b.ex /\ (~Aligned(kind, b) \/ (kind \in ChanKinds /\ ~b.szok)), "C15:misaligned")
   \cup If(b.ex /\ ~b.szok, "C02:declared_size_after_edits")
+  \* C16: no item of another frame count inside a block, however it got there
+  \cup If(b.ex /\ kind \in LengthKinds /\ ~b.lenok, "C16:wrong_length_item_present")
   \cup If(b.ex /\ kind \in ChanKinds /\ ~Unique(b), "C15:duplicate_channel")
   \cup If(a.ex /\ b.ex /\ ~Sticky(kind, a, b), "C15:channel_moved")
 
@@ -203,6 +206,7 @@ Step(kind, w, o, w2, r) ==
           \* the item list read from block j through its public getter is assigned to block i: i
           \* then holds j's items (the caller shares the item OBJECTS), j is untouched - and stays
           \* untouched by whatever is done to i afterwards (OthersSame on the following calls)
+          [] o.op = "assign_from" /\ ~o.compat -> If(r.ok \/ b # a, "C16:wrong_length_assign_accepted")
           [] o.op = "assign_from" -> If(~r.ok \/ Len(b.items) # Len(w[o.j].items)
                                          \/ (Len(b.items) = Len(w[o.j].items) /\ \E k \in 1..Len(b.items) :
                                                 b.items[k].label # w[o.j].items[k].label), "C20:assign_from")
